@@ -270,6 +270,16 @@ func Universe(quick bool) []Case {
 			cases = append(cases, Case{V: v, Impl: "basic-newuint"})
 		}
 	}
+	// every bytes value of the sweep once more held by basicnode's reader-backed bytes node (a node that
+	// is read more than once per check: length, encode, observation)
+	for _, v := range ref.Sweep(bytesVals()) {
+		if ref.HasBytes(v) {
+			cases = append(cases, Case{V: v, Impl: "basic-readerbytes"})
+			if v.K == ref.KBytes {
+				cases = append(cases, Case{V: v, Impl: "basic-bytes-proto-of-reader"})
+			}
+		}
+	}
 	for _, v := range vals {
 		if !InDomain(v) {
 			continue
@@ -362,4 +372,12 @@ func Replay(r *core.Run, raw json.RawMessage) {
 	}
 	fs, _ := Check(c)
 	r.Report("value", c, fs)
+}
+
+func bytesVals() []ref.Val {
+	var out []ref.Val
+	for _, b := range ref.BytesFull() {
+		out = append(out, ref.Bytes(b))
+	}
+	return out
 }
